@@ -636,4 +636,203 @@ theorem asn1Unsigned_spec (b0 : UInt8) (rest : Bytes) :
           omega
       rw [shiftIn_toNat _ h64]
 
+/-- **checkASN1Integer = DER minimality**: the contents are accepted iff they are a shortest non-empty
+    two's-complement representation of their value. -/
+theorem checkASN1Integer_iff_shortest (bs : Bytes) :
+    checkASN1Integer bs = true ↔
+      bs ≠ [] ∧ ∀ bs' : Bytes, bs' ≠ [] → twosVal bs' = twosVal bs → bs.length ≤ bs'.length := by
+  match bs with
+  | [] => simp [checkASN1Integer]
+  | [a] =>
+    simp only [checkASN1Integer, ne_eq, List.cons_ne_self, not_false_eq_true, List.length_cons,
+      List.length_nil, true_and, true_iff, reduceCtorEq]
+    intro bs' hne _
+    cases bs' with
+    | nil => exact absurd rfl hne
+    | cons c r => simp
+  | b0 :: b1 :: rest =>
+    constructor
+    · intro h
+      refine ⟨by simp, ?_⟩
+      intro bs' hne hv
+      cases bs' with
+      | nil => exact absurd rfl hne
+      | cons c0 rest' =>
+        by_cases hlen : rest'.length ≤ rest.length
+        · exfalso
+          have hA := twosVal_range c0 rest'
+          have hB := twosVal_minimal_big b0 b1 rest h
+          rw [hv] at hA
+          have hmono : (256 ^ rest'.length : Nat) ≤ 256 ^ rest.length := Nat.pow_le_pow_right (by decide) hlen
+          generalize twosVal (b0 :: b1 :: rest) = v at *
+          generalize (256 ^ rest'.length : Nat) = P' at *
+          generalize (256 ^ rest.length : Nat) = P at *
+          omega
+        · simp only [List.length_cons]; omega
+    · intro ⟨_, h⟩
+      by_cases hc : checkASN1Integer (b0 :: b1 :: rest) = true
+      · exact hc
+      · have hC := twosVal_redundant b0 b1 rest (by simpa using hc)
+        have := h (b1 :: rest) (by simp) hC.symm
+        simp only [List.length_cons] at this
+        omega
+
+/-- the accepted encoding of a value is unique -/
+theorem checkASN1Integer_unique (a b : Bytes) (ha : checkASN1Integer a = true) (hb : checkASN1Integer b = true)
+    (hv : twosVal a = twosVal b) : a.length = b.length := by
+  obtain ⟨ha0, ha1⟩ := (checkASN1Integer_iff_shortest a).mp ha
+  obtain ⟨hb0, hb1⟩ := (checkASN1Integer_iff_shortest b).mp hb
+  have := ha1 b hb0 hv.symm
+  have := hb1 a ha0 hv
+  omega
+
+/-! ## integer builders -/
+theorem top_bit_iff (b0 : UInt8) (rest : Bytes) :
+    128 * 256 ^ rest.length ≤ natOfBE (b0 :: rest) ↔ 128 ≤ b0.toNat := by
+  have hr := natOfBE_lt rest
+  rw [natOfBE_cons]
+  generalize 256 ^ rest.length = P at *
+  generalize natOfBE rest = r at *
+  constructor
+  · intro h1
+    by_cases h2 : 128 ≤ b0.toNat
+    · exact h2
+    · exfalso
+      have : b0.toNat * P ≤ 127 * P := Nat.mul_le_mul_right P (by omega)
+      omega
+  · intro h2
+    have : 128 * P ≤ b0.toNat * P := Nat.mul_le_mul_right P h2
+    omega
+
+/-- two's-complement value from the big-endian value -/
+theorem twosVal_of_natOfBE (bs : Bytes) (hne : bs ≠ []) :
+    twosVal bs = if 128 * 256 ^ (bs.length - 1) ≤ natOfBE bs
+      then (natOfBE bs : Int) - ((256 ^ bs.length : Nat) : Int) else natOfBE bs := by
+  match bs, hne with
+  | b0 :: rest, _ =>
+    have e : twosVal (b0 :: rest) = if (b0 &&& 0x80 == 0x80) = true then
+        (natOfBE (b0 :: rest) : Int) - (256 : Int) ^ (b0 :: rest).length else (natOfBE (b0 :: rest) : Int) := rfl
+    have hP : ((256 ^ (b0 :: rest).length : Nat) : Int) = (256 : Int) ^ (b0 :: rest).length := by
+      rw [Int.natCast_pow]; rfl
+    rw [e, neg_bit', hP]
+    simp only [List.length_cons, Nat.add_sub_cancel]
+    by_cases h : 128 ≤ b0.toNat
+    · rw [if_pos (by simpa using h), if_pos ((top_bit_iff b0 rest).mpr h)]
+    · rw [if_neg (by simpa using h), if_neg (fun h' => h ((top_bit_iff b0 rest).mp h'))]
+
+theorem intBytes_length (n : Nat) (v : Int) : (intBytes n v).length = n := by
+  simp [intBytes, natToBE, natToLE_length]
+
+theorem natOfBE_natToBE' (k l : Nat) : natOfBE (natToBE k l) = l % 256 ^ k := by
+  simp [natOfBE, natToBE, natOfLE_natToLE]
+
+/-- the low `n` octets of `v` denote `v` when `v` fits `8n` bits two's complement -/
+theorem twosVal_intBytes (n : Nat) (v : Int) (hn : 1 ≤ n)
+    (hlo : -(128 * ((256 ^ (n - 1) : Nat) : Int)) ≤ v) (hhi : v < 128 * ((256 ^ (n - 1) : Nat) : Int)) :
+    twosVal (intBytes n v) = v := by
+  have hne : intBytes n v ≠ [] := by
+    intro h; have := intBytes_length n v; rw [h] at this; simp at this; omega
+  rw [twosVal_of_natOfBE _ hne, intBytes_length]
+  unfold intBytes
+  rw [natOfBE_natToBE']
+  obtain ⟨m, rfl⟩ : ∃ m, n = m + 1 := ⟨n - 1, by omega⟩
+  simp only [Nat.add_sub_cancel] at *
+  have hM : ((256 ^ (m + 1) : Nat) : Int) = 256 * ((256 ^ m : Nat) : Int) := cast_pow_succ m
+  have hMi : (256 : Int) ^ (m + 1) = ((256 ^ (m + 1) : Nat) : Int) := by rw [Int.natCast_pow]; rfl
+  rw [hMi, hM]
+  have hKpos : 0 < ((256 ^ m : Nat) : Int) := by
+    have : 0 < 256 ^ m := Nat.pow_pos (by decide)
+    omega
+  have hnat : (256 ^ (m + 1) : Nat) = 256 * 256 ^ m := by rw [Nat.pow_succ, Nat.mul_comm]
+  rw [hnat]
+  generalize hK : (256 ^ m : Nat) = K at *
+  by_cases hv : 0 ≤ v
+  · have e1 : v % (256 * (K : Int)) = v := Int.emod_eq_of_lt hv (by omega)
+    rw [e1]
+    have e2 : v.toNat % (256 * K) = v.toNat := Nat.mod_eq_of_lt (by omega)
+    rw [e2, if_neg (by omega)]
+    omega
+  · have e1 : v % (256 * (K : Int)) = v + 256 * K := by
+      rw [← Int.add_emod_right]
+      exact Int.emod_eq_of_lt (by omega) (by omega)
+    rw [e1]
+    have e2 : (v + 256 * (K : Int)).toNat % (256 * K) = (v + 256 * (K : Int)).toNat := Nat.mod_eq_of_lt (by omega)
+    rw [e2, if_pos (by omega)]
+    omega
+
+/-- the range of `n`-octet two's complement, `R(n) = [-128·256^(n-1), 128·256^(n-1))` -/
+def inR (n : Nat) (v : Int) : Prop :=
+  -(128 * ((256 ^ (n - 1) : Nat) : Int)) ≤ v ∧ v < 128 * ((256 ^ (n - 1) : Nat) : Int)
+
+/-- the length loop of addASN1Signed finds the least `n` with `v ∈ R(n)` -/
+theorem signedLen_spec : ∀ (fuel : Nat) (v : Int), inR (fuel + 1) v →
+    1 ≤ signedLen fuel v ∧ signedLen fuel v ≤ fuel + 1 ∧ inR (signedLen fuel v) v ∧
+      (2 ≤ signedLen fuel v → ¬ inR (signedLen fuel v - 1) v)
+  | 0, v, h => by simpa [signedLen, inR] using h
+  | fuel + 1, v, h => by
+    unfold signedLen
+    by_cases hc : (decide (v ≥ 0x80) || decide (v < -0x80)) = true
+    · rw [if_pos hc]
+      simp only [Bool.or_eq_true, decide_eq_true_eq] at hc
+      have hin : inR (fuel + 1) (v / 256) := by
+        unfold inR at h ⊢
+        simp only [Nat.add_sub_cancel] at h ⊢
+        rw [cast_pow_succ] at h
+        generalize ((256 ^ fuel : Nat) : Int) = K at *
+        constructor <;> omega
+      obtain ⟨i1, i2, i3, i4⟩ := signedLen_spec fuel (v / 256) hin
+      generalize signedLen fuel (v / 256) = n' at *
+      refine ⟨by omega, by omega, ?_, ?_⟩
+      · unfold inR at i3 ⊢
+        rw [show 1 + n' - 1 = (n' - 1) + 1 by omega, cast_pow_succ]
+        generalize ((256 ^ (n' - 1) : Nat) : Int) = K at *
+        constructor <;> omega
+      · intro _
+        rw [show 1 + n' - 1 = n' by omega]
+        by_cases hn : 2 ≤ n'
+        · have := i4 hn
+          unfold inR at this ⊢
+          rw [show n' - 1 = (n' - 1 - 1) + 1 by omega, cast_pow_succ]
+          generalize ((256 ^ (n' - 1 - 1) : Nat) : Int) = K at *
+          omega
+        · have : n' = 1 := by omega
+          subst this
+          unfold inR
+          simp only [Nat.sub_self, Nat.pow_zero]
+          omega
+    · rw [if_neg hc]
+      simp only [Bool.or_eq_true, decide_eq_true_eq, not_or, Int.not_lt] at hc
+      refine ⟨by omega, by omega, ?_, by omega⟩
+      unfold inR
+      simp only [Nat.sub_self, Nat.pow_zero]
+      omega
+
+theorem inR_mono (a b : Nat) (h : a ≤ b) (v : Int) (hv : inR a v) : inR b v := by
+  unfold inR at *
+  have : (256 ^ (a - 1) : Nat) ≤ 256 ^ (b - 1) := Nat.pow_le_pow_right (by decide) (by omega)
+  generalize (256 ^ (a - 1) : Nat) = A at *
+  generalize (256 ^ (b - 1) : Nat) = B at *
+  omega
+
+/-- `intBytes n v` for the least `n` with `v ∈ R(n)` is the accepted (shortest) encoding of `v` -/
+theorem intBytes_minimal (n : Nat) (v : Int) (hn : 1 ≤ n) (hin : inR n v) (hmin : 2 ≤ n → ¬ inR (n - 1) v) :
+    checkASN1Integer (intBytes n v) = true ∧ twosVal (intBytes n v) = v := by
+  have hv := twosVal_intBytes n v hn hin.1 hin.2
+  refine ⟨?_, hv⟩
+  rw [checkASN1Integer_iff_shortest]
+  refine ⟨by intro h; have := intBytes_length n v; rw [h] at this; simp at this; omega, ?_⟩
+  intro bs' hne hval
+  rw [intBytes_length]
+  by_cases hle : n ≤ bs'.length
+  · exact hle
+  · exfalso
+    match bs', hne with
+    | c0 :: rest', _ =>
+      have hA := twosVal_range c0 rest'
+      rw [hval, hv] at hA
+      have : inR (rest'.length + 1) v := by
+        unfold inR; simp only [Nat.add_sub_cancel]; exact hA
+      have := inR_mono (rest'.length + 1) (n - 1) (by simp only [List.length_cons] at hle; omega) v this
+      exact hmin (by simp only [List.length_cons] at hle; omega) this
+
 end XC.C23
